@@ -1,5 +1,4 @@
 import Logrange.Model.RdJIter
-import Logrange.Generated.C03
 /-!
 # `chkSelector` and `partition.JIterator` (pkg/partition/cselector.go, jiterator.go) — ranged reads (C03/C16)
 
@@ -108,20 +107,18 @@ def rEnsure (j : Journal) (s : RIt) : RIt × Bool :=
       let ci := ciSetPos j { chunk := c.id } pos.idx
       ({ s with cid := pos.cid, ci := some ci, idx := ci.pos.toNat }, false)
 
-/-- `advanceChunk`. `keepsItPos` = the repair proposed for finding F59 (a regenerated fact while it is only
-proposed): when no chunk lies behind the one just left, the end-of-data position is where the chunk iterator
-stopped, not the position `getPosForward` builds from a count read afterwards. -/
-def rAdvanceF (keepsItPos : Bool) (j : Journal) (s : RIt) : RIt × Bool :=
+/-- `advanceChunk` (008ef8e): when no chunk lies behind the one just left (the selector answers end of data with the
+same chunk id), the end-of-data position is where the chunk iterator stopped — not the position `getPosForward`
+builds from a count read afterwards. -/
+def rAdvance (j : Journal) (s : RIt) : RIt × Bool :=
   let left : Pos := match s.ci with
     | some c => if c.pos ≥ 0 then ⟨s.cid, c.pos.toNat⟩ else ⟨s.cid, s.idx⟩
     | none => ⟨s.cid, s.idx⟩
   let s0 := { s with ci := none }
   let s1 := if s0.bkwd then { s0 with cid := s0.cid - 1, idx := maxU32 } else { s0 with cid := s0.cid + 1, idx := 0 }
   let (s2, eof) := rEnsure j s1
-  if keepsItPos && eof && !s.bkwd && s2.cid == left.cid then ({ s2 with cid := left.cid, idx := left.idx }, eof)
+  if eof && !s.bkwd && s2.cid == left.cid then ({ s2 with cid := left.cid, idx := left.idx }, eof)
   else (s2, eof)
-
-def rAdvance (j : Journal) (s : RIt) : RIt × Bool := rAdvanceF Generated.C03.advanceKeepsIteratorPos j s
 
 def rGetLoop (j : Journal) : Nat → RIt → RIt × Option Rec
   | 0, s => (s, none)
@@ -173,10 +170,10 @@ end Logrange.Rd
 
 namespace Logrange.Rd
 
-/-- `Get` of a reader whose chunk iterator is open, while a writer confirms records (observation split, finding
+/-- `Get` of a reader whose chunk iterator is open, while a writer confirms records (observation split, findings
 #34/F59): the chunk iterator takes its end-of-data decision against the journal value `jd`; what follows in the same
 call — `advanceChunk`, `ensureChkIt`, `getPosForward` with its own `Count()` reads — sees `ja` (`jd` grown). -/
-def rGetObs (keepsItPos : Bool) (jd ja : Journal) (s : RIt) : RIt × Option Rec :=
+def rGetObs (jd ja : Journal) (s : RIt) : RIt × Option Rec :=
   match s.ci with
   | none => rGet ja s
   | some c =>
@@ -184,7 +181,7 @@ def rGetObs (keepsItPos : Bool) (jd ja : Journal) (s : RIt) : RIt × Option Rec 
     match r with
     | some l => ({ s with ci := some c' }, some l)
     | none =>
-      let (s', eof) := rAdvanceF keepsItPos ja { s with ci := some c' }
+      let (s', eof) := rAdvance ja { s with ci := some c' }
       if eof then (s', none) else rGetLoop ja (ja.length + 2) s'
 
 /-- drain forward over a fixed journal -/
